@@ -1720,7 +1720,11 @@ func (p *parser) hoistSymbols(scope *js_ast.Scope) {
 						// symbol takes its name from the existing symbol, so the existing
 						// symbol must not be renamed if this symbol must not be renamed.
 						if symbol.Flags.Has(ast.MustNotBeRenamed) {
-							existingSymbol.Flags |= ast.MustNotBeRenamed
+							// The existing symbol may itself have been merged into another
+							// symbol already, which is then the one that provides the name
+							for link := existingMember.Ref; link != ast.InvalidRef; link = p.symbols[link.InnerIndex].Link {
+								p.symbols[link.InnerIndex].Flags |= ast.MustNotBeRenamed
+							}
 						}
 						symbol.Link = existingMember.Ref
 						s.Members[symbol.OriginalName] = existingMember
